@@ -364,7 +364,12 @@ func c01tokenGroups(c *engine.Ctx, maxLen int, only string, upTo int) {
 
 var c01values = []string{"nil", "0", "-1", "9223372036854775807", "2.5", `"s"`, "'c'", "(quote sym)", "(quote (1 2))", "[1 2]", "(hash a:1)", "[]", "(fn [x] x)", "st01", "true", "u", "[u]", "[u 1]", "(u)", "u:", "(quote ())", "%u", "(raw \"ab\")", "h01.a"}
 
-const c01prelude = `(struct S01 [(field a: int64)]) (def st01 (S01 a:1)) (def h01 (hash a:1 b:[1 2]))`
+const c01prelude = `(struct S01 [(field a: int64)]) (def st01 (S01 a:1)) (def h01 (hash a:1 b:[1 2]))
+(defn lz01 [#x] 7) (defn lz02 [a #x] (force #x)) (defn va01 [a & r] r) (defn fx01 [a b] (+ a b)) (defmac mc01 [a] ^(list ~a)) (defmac mc02 [a & r] ^(list ~a ~@r))
+(func tf01 [a:int64] [r:int64] (return a)) (def cl01 (let [z 1] (fn [q] (+ q z)))) (defn tl01 [n #x] (cond (== n 0) (force #x) (tl01 (- n 1) n)))`
+
+// functions, macros and closures of every kind of signature, defined by the prelude and swept like the builtins
+var c01userNames = []string{"lz01", "lz02", "va01", "fx01", "mc01", "mc02", "tf01", "cl01", "tl01", "S01", "st01", "h01"}
 
 func c01callGroups(c *engine.Ctx, maxArgs int, only string, upTo int) {
 	env := c01env()
@@ -372,6 +377,7 @@ func c01callGroups(c *engine.Ctx, maxArgs int, only string, upTo int) {
 	names = append(names, env.VerifMacroNames()...)
 	env.Close()
 	names = append(names, c08special...)
+	names = append(names, c01userNames...)
 	sort.Strings(names)
 	var vectors [][]string
 	var rec func(cur []string)
@@ -818,7 +824,7 @@ func init() {
 		ID:    "C01",
 		Level: "exploration",
 		Rule: "(T) every string of <=3 (thorough 4) tokens over a 60-token alphabet, joined with and without blanks, x 10 wrappers (bare, macexpand, quote, syntax-quote, eval, infix block, function body, call head, array, call argument) through EvalString, LoadString+Run, the REPL line path (parse, continuation, infix wrap, EvalExpressions, stack-trace/print) and the parser alone; " +
-			"(K) every bound name, macro and special form x every argument vector of length 0..2 (thorough 3) over 24 value/form kinds, and 41 kinds of value in call-head position with the same vectors; (F) every top-level form of the 111 corpus scripts, after the forms before it, under every prefix, single-token deletion, duplication, neighbour swap and replacement by 8 (thorough 18) tokens; " +
+			"(K) every bound name, macro and special form, and 12 user-defined functions/macros/closures/struct values (lazy, variadic, typed, tail-recursive signatures) x every argument vector of length 0..2 (thorough 3) over 24 value/form kinds, and 41 kinds of value in call-head position with the same vectors; (F) every top-level form of the 111 corpus scripts, after the forms before it, under every prefix, single-token deletion, duplication, neighbour swap and replacement by 8 (thorough 18) tokens; " +
 			"(N) 31 nesting families at depths 1..600 (thorough 1500; some parsers are quadratic in the nesting depth), closed, unclosed and over-closed, through eval, REPL, parser, compiler and printer; (C) hand list + alphabet through zygo -c, REPL on stdin and script file. Oracle: the call returns a value or an error (no escaping panic, no process death, no Go-nil result), and returns: a call still running after 90 s although the 100000-step VM budget is not used up ends the worker (watchdog) and is confirmed by three solitary replays",
 		Assumptions:   []string{"texts that name channel / goroutine primitives may wait for ever and are counted, not judged, when they do", "functions acting on the outside world (" + strings.Join(c01withheld, ", ") + ", sys) are replaced by failing stubs", "allocation sizes between 2^31 and 2^62 are not in the value menu (out-of-memory is not explored)"},
 		QuickDeadline: 170 * time.Second,
